@@ -311,3 +311,26 @@ B('C11', 'schema priority admits medium', (YM, "schema.Or(schema.Use(int), 'high
 B('C11', 'BasicState equality ignores actions', (EL, "        if isinstance(other, BasicState):\n            return (\n                ContractMixin.__eq__(self, other)\n                and StateMixin.__eq__(self, other)\n                and ActionStateMixin.__eq__(self, other)\n", "        if isinstance(other, BasicState):\n            return (\n                ContractMixin.__eq__(self, other)\n                and StateMixin.__eq__(self, other)\n"))
 B('C11', 'exit code exported when entry code is set', (DD, "        if state.on_exit:\n            data['on exit'] = state.on_exit", "        if state.on_entry:\n            data['on exit'] = state.on_exit"))
 T('C11', 'renamed importer locals', (DD, "    event = transition_d.get('event', None)\n", "    evt = event = transition_d.get('event', None)\n"))
+
+# ---------------------------------------------------------------- C12
+B('C12', 'duplicate-name check deleted', (SC, "        if state.name in self._states.keys():\n            raise StatechartError('State {} already exists!'.format(state))\n", ""))
+B('C12', 'memory-is-sibling check deleted', (SC, "                if state.memory not in self.children_for(self.parent_for(name)):\n                    raise StatechartError(\n                        'Initial memory {} of {} must be a parent\\'s child'.format(\n                            state.memory, state)\n                    )\n", ""))
+B('C12', 'memory-self check deleted', (SC, "                if memory == name:\n                    raise StatechartError(\n                        'Initial memory {} of {} cannot target itself'.format(state.memory, state))\n", ""))
+B('C12', 'F11 reverted', (SC, "            if isinstance(state, HistoryStateMixin):\n                raise StatechartError('{} cannot be used as a root state'.format(state))\n", ""))
+B('C12', 'schema call unwrapped', (YM, "        try:\n            data = schema.Schema(SCHEMA.statechart).validate(data)\n        except schema.SchemaError as e:\n            raise StatechartError('YAML validation failed') from e", "        data = schema.Schema(SCHEMA.statechart).validate(data)"))
+B('C12', 'validate skips one sub-validator', (SC, "        self._validate_compoundstate_initial()\n        self._validate_historystate_memory()\n\n        return True", "        self._validate_compoundstate_initial()\n\n        return True"))
+B('C12', 'ValueError raised instead', (SC, "            raise StatechartError('Unknown target state for {}'.format(transition))", "            raise ValueError('Unknown target state for {}'.format(transition))"))
+B('C12', 'target-exists check deleted', (SC, "        if transition.target is not None and transition.target not in self._states:\n            raise StatechartError('Unknown target state for {}'.format(transition))\n", ""))
+B('C12', 'both-kinds check deleted', (DD, "        if substates and parallel_substates:\n            raise StatechartError(\n                '{} cannot declare both a \"states\" and a \"parallel states\" property'.format(name))\n        elif substates:", "        if substates:"))
+B('C12', 'validation off by default', (YM, "ignore_validation: bool = False) -> Statechart:", "ignore_validation: bool = True) -> Statechart:"))
+B('C12', 'root check only when the root has children', (SC, "            if self.root:\n                raise StatechartError(\n                    'Root already defined", "            if self.root and self._children[self.root]:\n                raise StatechartError(\n                    'Root already defined"))
+B('C12', 'schema admits unknown keys', (YM, "data = schema.Schema(SCHEMA.statechart).validate(data)", "data = schema.Schema(SCHEMA.statechart, ignore_extra_keys=True).validate(data)"))
+B('C12', 'initial child check deleted', (SC, "                if state.initial not in self.children_for(name):\n                    raise StatechartError(\n                        'Initial state {} of {} must be a child state'.format(state.initial, state))\n", ""))
+B('C12', 'transitions allowed on any state', (SC, "        if not isinstance(from_state, TransitionStateMixin):\n            raise StatechartError('Cannot add {} on {}'.format(transition, from_state))\n", ""))
+B('C12', 'builder errors escape', (DD, "        try:\n            state = _import_state_from_dict(state_data)\n        except StatechartError:\n            raise\n        except Exception as e:\n            raise StatechartError('Unable to load given YAML') from e", "        state = _import_state_from_dict(state_data)"))
+B('C12', 'unknown type becomes a basic state', (DD, "    else:\n        raise StatechartError('Unknown type {} for state {}'.format(stype, name))", "    else:\n        state = BasicState(name, on_entry=on_entry, on_exit=on_exit)"))
+B('C12', 'name optional in schema', (YM, "    state.update({\n        'name': schema.Use(str),", "    state.update({\n        schema.Optional('name'): schema.Use(str),"))
+B('C12', 'history parent check accepts orthogonal', (SC, "if isinstance(state, HistoryStateMixin) and not isinstance(parent_state, CompoundState):", "if isinstance(state, HistoryStateMixin) and not isinstance(parent_state, CompositeStateMixin):"))
+B('C12', 'memory validation stops at first history state', (SC, "                if memory is None:\n                    continue", "                if memory is None:\n                    break"))
+B('C12', 'last transition of a state dropped', (DD, "            transitions.append(transition)\n", "            if transition_data is not state_data.get('transitions', [])[-1] or len(state_data.get('transitions', [])) == 1:\n                transitions.append(transition)\n"))
+T('C12', 'membership in dict instead of keys()', (SC, "        if state.name in self._states.keys():", "        if state.name in self._states:"))
